@@ -26,7 +26,7 @@ Do(o) ==
     [] o.op = "weak"    -> MkWeak(o.a) /\ o.w = Len(P) + 1
     [] o.op = "upgrade" -> Upgrade(o.w)
     [] o.op = "dropw"   -> DropWeak(o.w)
-    [] o.op = "eph"     -> MkEph(o.k, o.v, o.h) /\ o.e = Len(P) + 1
+    [] o.op = "eph"     -> MkEph(o.k, o.v, o.h, {o.ws[j] : j \in DOMAIN o.ws}) /\ o.e = Len(P) + 1
     [] o.op = "ephval"  -> EphValue(o.e)
     [] o.op = "drope"   -> DropEph(o.e)
     [] o.op = "wm"      -> MkWm(o.h) /\ o.m = Len(M) + 1
